@@ -124,7 +124,7 @@ def calibration_single_ended_helper(
         )
 
         y -= fix_gamma[0] * X_gamma
-        w = 1 / (1 / w + fix_gamma[1] * X_gamma)
+        w = 1 / (1 / w + fix_gamma[1] * X_gamma**2)
     if fix_alpha is not None:
         ip_remove = list(range(1, nx + 1))
         ip_use = [i for i in ip_use if i not in ip_remove]
@@ -133,7 +133,7 @@ def calibration_single_ended_helper(
 
         # X_alpha needs to be vertically extended to support matching sections
         y -= split["X_alpha"].dot(fix_alpha[0])
-        w = 1 / (1 / w + split["X_alpha"].dot(fix_alpha[1]))
+        w = 1 / (1 / w + split["X_alpha"].multiply(split["X_alpha"]).dot(fix_alpha[1]))
     if fix_dalpha is not None:
         ip_remove = [1]
         ip_use = [i for i in ip_use if i not in ip_remove]
@@ -153,10 +153,10 @@ def calibration_single_ended_helper(
             1 / w
             + np.hstack(
                 (
-                    fix_dalpha[1] * split["X_dalpha"].toarray().flatten(),
+                    fix_dalpha[1] * split["X_dalpha"].toarray().flatten() ** 2,
                     (
                         fix_dalpha[1]
-                        * split["X_m"].tocsr()[:, 1].tocoo().toarray().flatten()
+                        * split["X_m"].tocsr()[:, 1].tocoo().toarray().flatten() ** 2
                     ),
                 )
             )
@@ -631,8 +631,10 @@ def calibrate_double_ended_helper(
             )
             w = 1 / (
                 1 / w_
-                + X_E.dot(fix_alpha[1][split["ix_from_cal_match_to_glob"]])
-                + fix_gamma[1] * X_gamma
+                + X_E.multiply(X_E).dot(
+                    fix_alpha[1][split["ix_from_cal_match_to_glob"]]
+                )
+                + fix_gamma[1] * X_gamma**2
             )
 
         else:
@@ -659,7 +661,9 @@ def calibrate_double_ended_helper(
             # of the observations
             w_ = np.concatenate((split["w_F"], split["w_B"]))
             w = 1 / (
-                1 / w_ + X_E.dot(fix_alpha[1][ix_sec[1:]]) + fix_gamma[1] * X_gamma
+                1 / w_
+                + X_E.multiply(X_E).dot(fix_alpha[1][ix_sec[1:]])
+                + fix_gamma[1] * X_gamma**2
             )
 
             # [C_1, C_2, .., C_nt, TA_fw_a_1, TA_fw_a_2, TA_fw_a_nt,
@@ -776,7 +780,7 @@ def calibrate_double_ended_helper(
                     split["w_eq3"],
                 )
             )
-            w = 1 / (1 / w_ + fix_gamma[1] * X_gamma)
+            w = 1 / (1 / w_ + fix_gamma[1] * X_gamma**2)
 
         else:
             X_gamma = (
@@ -810,7 +814,7 @@ def calibrate_double_ended_helper(
             # variances are added. weight is the inverse of the variance
             # of the observations
             w_ = np.concatenate((split["w_F"], split["w_B"]))
-            w = 1 / (1 / w_ + fix_gamma[1] * X_gamma)
+            w = 1 / (1 / w_ + fix_gamma[1] * X_gamma**2)
 
             p0_est = split["p0_est"][1:]
 
@@ -982,7 +986,7 @@ def calibrate_double_ended_helper(
             # variances are added. weight is the inverse of the variance
             # of the observations
             w_ = np.concatenate((split["w_F"], split["w_B"]))
-            w = 1 / (1 / w_ + X_E.dot(fix_alpha[1][ix_sec[1:]]))
+            w = 1 / (1 / w_ + X_E.multiply(X_E).dot(fix_alpha[1][ix_sec[1:]]))
 
             p0_est = np.concatenate(
                 (
@@ -1076,7 +1080,12 @@ def calibrate_double_ended_helper(
                     split["w_eq3"],
                 )
             )
-            w = 1 / (1 / w_ + X_E.dot(fix_alpha[1][split["ix_from_cal_match_to_glob"]]))
+            w = 1 / (
+                1 / w_
+                + X_E.multiply(X_E).dot(
+                    fix_alpha[1][split["ix_from_cal_match_to_glob"]]
+                )
+            )
 
         if solver == "sparse":
             out = wls_sparse(X, y, w=w, x0=p0_est, calc_cov=True, verbose=False)
